@@ -69,7 +69,7 @@ struct Case
 };
 
 constexpr int     kMaxCap    = 40;
-constexpr int     kMaxElems  = 12;
+constexpr int     kMaxElems  = 320;
 constexpr int64_t kMaxTtlMs  = 100000;
 constexpr int64_t kMaxAdvNs  = 200'000'000'000ll;
 
@@ -211,7 +211,7 @@ inline bool op_from_line(const std::string& line, Op& out)
         case O_INS: ls >> o.k >> o.allow >> o.ttl_ms; break;
         case O_INSR:
             ls >> o.allow >> o.flavour >> n;
-            for (size_t i = 0; i < n && i < 64 && ls; ++i)
+            for (size_t i = 0; i < n && i < 400 && ls; ++i)
             {
                 Elem e;
                 ls >> e.k >> e.ttl_ms;
@@ -222,7 +222,7 @@ inline bool op_from_line(const std::string& line, Op& out)
         case O_ERA: ls >> o.k; break;
         case O_ERAR:
             ls >> o.flavour >> n;
-            for (size_t i = 0; i < n && i < 64 && ls; ++i)
+            for (size_t i = 0; i < n && i < 400 && ls; ++i)
             {
                 Elem e;
                 ls >> e.k;
@@ -239,7 +239,7 @@ inline bool op_from_line(const std::string& line, Op& out)
         case O_FINDRF:
             ls >> p >> o.flavour >> n;
             o.peek = p != 0;
-            for (size_t i = 0; i < n && i < 64 && ls; ++i)
+            for (size_t i = 0; i < n && i < 400 && ls; ++i)
             {
                 Elem e;
                 ls >> e.k;
